@@ -543,6 +543,7 @@ def language_traps(ctx, fns, clause):
                    ("TRAP-default", "mutable default arguments are neither mutated nor handed out"),
                    ("TRAP-shared", "dict.fromkeys is not given a mutable value"),
                    ("TRAP-negzero", "a slice x[-n:] is taken only where n >= 1 is established"),
+                   ("TRAP-swallow", "no handler for Exception / BaseException / everything without re-raising, inside functions"),
                    ("TRAP-getter", "the result of operator.itemgetter(*names) is not consumed as a sequence unless there are at least two names")):
         ctx.rule(r_, t_)
     n = {"iter": 0, "late": 0, "default": 0, "shared": 0}
@@ -682,6 +683,23 @@ def language_traps(ctx, fns, clause):
                     ctx.ob("TRAP-iter", f, f"module-level {name} = {norm(v)[:50]}", uses[0], False,
                            f"{name} is ONE iterator object created when the module is imported; {f.name}() consumes it, so every call "
                            f"continues where the previous one stopped (and later calls get nothing)", clause=clause)
+    # ---- TRAP-swallow: a handler for Exception / BaseException / everything that does not re-raise turns every failure of
+    # the guarded code -- including the errors the properties say are raised -- into an ordinary result
+    for fn in fns:
+        for f in _all_fns([fn]):
+            for tr in [x for x in body_nodes(f.node) if isinstance(x, ast.Try)]:
+                for h in tr.handlers:
+                    tnames = [] if h.type is None else [norm(e) for e in (h.type.elts if isinstance(h.type, ast.Tuple) else [h.type])]
+                    broad = h.type is None or any(t in ("Exception", "BaseException") for t in tnames)
+                    n["swallow"] = n.get("swallow", 0) + 1
+                    if not broad:
+                        continue
+                    reraises = any(isinstance(x, ast.Raise) for b in h.body for x in ast.walk(b))
+                    ctx.ob("TRAP-swallow", f, f"except {', '.join(tnames) or '<everything>'}", h, reraises,
+                           "the handler re-raises" if reraises else
+                           f"`except {', '.join(tnames) or ''}:` without re-raising answers every failure of the guarded statements with the "
+                           f"handler's result: type errors, length mismatches and the errors the statement says are raised are silently "
+                           f"turned into data", clause=clause)
     # ---- TRAP-negzero: x[-n:] is meant as "the last n", but for n == 0 it is x[0:], everything
     from ..guards import lower_bound
     for fn in fns:
